@@ -107,6 +107,19 @@ CLAIMED = {
         "note": TRUSTED,
         "technique": "static analysis: error-chain consumption over MIR, operand provenance per strategy arm, loop must-pass rules",
     },
+    "C11": {
+        "text": "Static placement / provenance rules over Loader::load_impl: glob matches are sorted by Path order (natural "
+                "sort or a comparator that is exactly Ord::cmp of the two paths) before the recursion, on the same vector; the "
+                "recursive load sits inside the entry loop and walks the sorted matches in order; the callback is unreachable "
+                "for Include entries and reached for every other kind; an empty match returns an error; include targets are "
+                "parent(canonical current path).join(include path) and the callback / file read use that canonical path; both "
+                "file systems glob with glob_match_options() = all three literal options true; the include stack tests, pushes "
+                "and pops the canonical path on every successful return and is passed down the recursion.  Report equivalence "
+                "under splitting is not decided.",
+        "design_ref": "DESIGN.md §4 C11",
+        "note": TRUSTED,
+        "technique": "static analysis: dominance / loop-membership placement rules, operand provenance chains, constant-aggregate comparison over MIR",
+    },
     "C13": {
         "text": "Static, all-sites: every place where HashMap/HashSet iteration order enters the three crates "
                 "(std iterators, the local wrapper types AmountIter / intern::Iter, local functions returning them, "
